@@ -75,3 +75,7 @@ claim("C09", "exploration", "Hypothesis-generated session-transition graphs (and
       "the reported sessions must equal the BFS set reachable within depth on the graph without skipped nodes, recorded steps must be real walks, skipped sessions must never be requested, and the scan must stay within a "
       "request budget. Exploration over generated graphs.",
       "The default session is enterable from every session (ISO); in-memory transport and virtual time replace network and clock.")
+claim("C10", "exploration", "Hypothesis-generated ECU models / session lists / skip maps / identifier ranges; the real ServicesScanner and ScanIdentifiers run in-process under virtual time; clone-of-the-model and wire-log oracles",
+      "The real scanners are executed against RandomUDSServer models; the service scan's findings are compared with what a fresh clone of the model answers to the probe PDUs in each enterable session, with coverage (every sid probed in "
+      "the claimed session) and skip checks on the wire log; the identifier scan's tallies are compared with what the ECU actually answered to every identifier x sub-function probe of the range. Exploration over models and configurations.",
+      "Clone of the model as ground truth (determinism is C16); in-memory transport and virtual time.")
